@@ -48,6 +48,25 @@ def run(ctx):
         res.site(key, True, {"verdict": "ok" if ok else "VIOLATION"})
         if not ok:
             res.find(key, f.loc(), msg, "a block whose last instruction is a classical one / an empty block: BlockEnd is not reachable")
+    # every per-frame queue map that receives nodes during the loop is flushed to BlockEnd afterwards: the maps are
+    # identified by their construction site; a map recorded into but never drained leaves its last users without a path
+    # to the block end
+    def map_ids(e):
+        return {c_[3] for c_ in expr_calls(e) if c_[1] and ("HashMap" in c_[1]) and c_[1].rsplit("::", 1)[-1] in ("new", "default", "with_capacity")}
+
+    recorded = set()
+    for r in sched.record_sites(db, f):
+        if r["fn"] is f:  # frame queues are recorded in build itself; the memory queues inside closures are drained by value per access
+            recorded |= map_ids(r["recv"])
+    flushed = set()
+    for (bb, line, sc, tc, kinds, se, t) in sites:
+        if tc == "BlockEnd":
+            flushed |= map_ids(se)
+    key = "K8|boundary|every-frame-queue-flushed"
+    ok = bool(recorded) and recorded <= flushed
+    res.site(key, True, {"queue_maps_recorded_into": sorted(recorded), "queue_maps_flushed_to_block_end": sorted(flushed), "verdict": "ok" if ok else "VIOLATION"})
+    if not ok:
+        res.find(key, f.loc(), "a per-frame dependency queue map that is recorded into during the block (constructed at bb %s) is not drained into edges to BlockEnd (flushed: %s)" % (sorted(recorded - flushed), sorted(flushed)), "`PULSE 0 \"rf\"; RESET 0`: the RESET is the last user of the frame in the untimed queue only and never reaches the block end")
     # only the current node enters queues / trailing set
     recs = sched.record_sites(db, f)
     res.count("record_access_sites", len(recs), floor=5)
